@@ -83,10 +83,25 @@ noncomputable def ellCount (M : Matrix (Fin n) (Fin d) ℝ) (Z : List (Fin d →
 noncomputable def logHyper (M : Matrix (Fin n) (Fin d) ℝ) (Z : List (Fin d → ℝ)) : ℝ :=
   -Real.log (max 1 (ellCount M Z : ℝ))
 
-/-- one term of `sing_ratio_sum`: skipped (`0`) if `σ_l ≤ 1e-12`; `log(σ_l/σ_0)` if the ratio is
-`> 1e-12`, else `-12.0` -/
+/-- one term of `sing_ratio_sum`: skipped (`0`) if `σ_l ≤ 1e-12 · σ_0` (the rank decision is RELATIVE
+to the largest singular value since the repair of the units-dependence defect, DESIGN A.3);
+`log(σ_l/σ_0)` if the ratio is `> 1e-12`, else `-12.0` -/
 noncomputable def ratioTerm (s0 sl : ℝ) : ℝ :=
+  if tinyR * s0 < sl then (if tinyR < sl / s0 then Real.log (sl / s0) else -12) else 0
+
+/-- the pre-fix term: an ABSOLUTE threshold `σ_l > 1e-12` (kept as the negative witness:
+`ratioTermAbs_not_scale_invariant`) -/
+noncomputable def ratioTermAbs (s0 sl : ℝ) : ℝ :=
   if tinyR < sl then (if tinyR < sl / s0 then Real.log (sl / s0) else -12) else 0
+
+/-- one term is invariant under a common scaling of both singular values: no guard hypothesis -/
+theorem ratioTerm_scale (a s0 sl : ℝ) (ha : 0 < a) : ratioTerm (a * s0) (a * sl) = ratioTerm s0 sl := by
+  unfold ratioTerm
+  have h : tinyR * (a * s0) < a * sl ↔ tinyR * s0 < sl := by
+    rw [show tinyR * (a * s0) = a * (tinyR * s0) by ring]
+    exact mul_lt_mul_iff_right₀ ha
+  rw [mul_div_mul_left _ _ ha.ne']
+  simp only [h]
 
 /-- `sing_ratio_sum`: `0` unless `σ_0 > 1e-12`; then the sum over `l < min(d, len(S))`, where
 `len(S) = min(n, d)` (`n = k+1` rows) -/
@@ -137,8 +152,8 @@ theorem corrMat_rot (M : Matrix (Fin n) (Fin d) ℝ) (Q : Matrix (Fin d) (Fin d)
 /-- **corrMat_scale.** Scaling the configuration and the offsets by `a > 0` leaves the correction
 unchanged, provided no singular-value guard changes sides (`hguard`). The ellipsoid count needs no
 hypothesis; the ratio guards need none either (the ratios `σ_l/σ_0` are invariant). -/
-theorem corrMat_scale (M : Matrix (Fin n) (Fin d) ℝ) (a : ℝ) (ha : 0 < a)
-    (hguard : ∀ l < min n d, (tinyR < sv M l ↔ tinyR < a * sv M l)) (Z : List (Fin d → ℝ)) :
+theorem corrMat_scale_sigma0 (M : Matrix (Fin n) (Fin d) ℝ) (a : ℝ) (ha : 0 < a)
+    (hguard : 0 < min n d → (tinyR < sv M 0 ↔ tinyR < a * sv M 0)) (Z : List (Fin d → ℝ)) :
     corrMat (a • M) (Z.map (a • ·)) = corrMat M Z := by
   unfold corrMat logHyper
   rw [ellCount_scale M a ha.ne']
@@ -149,12 +164,17 @@ theorem corrMat_scale (M : Matrix (Fin n) (Fin d) ℝ) (a : ℝ) (ha : 0 < a)
   · simp [h0]
   · have hterm : ∀ l ∈ Finset.range (min n d),
         ratioTerm (sv (a • M) 0) (sv (a • M) l) = ratioTerm (sv M 0) (sv M l) := by
-      intro l hl
-      unfold ratioTerm
-      rw [hsv, hsv, mul_div_mul_left _ _ ha.ne']
-      simp only [← hguard l (Finset.mem_range.mp hl)]
+      intro l _
+      rw [hsv, hsv, ratioTerm_scale _ _ _ ha]
     rw [Finset.sum_congr rfl hterm, hsv 0]
-    simp only [← hguard 0 hpos]
+    simp only [← hguard hpos]
+
+/-- (the statement with the guard hypothesis on every singular value, as before the repair; only the
+one on `σ_0` is used any more: `corrMat_scale_sigma0`) -/
+theorem corrMat_scale (M : Matrix (Fin n) (Fin d) ℝ) (a : ℝ) (ha : 0 < a)
+    (hguard : ∀ l < min n d, (tinyR < sv M l ↔ tinyR < a * sv M l)) (Z : List (Fin d → ℝ)) :
+    corrMat (a • M) (Z.map (a • ·)) = corrMat M Z :=
+  corrMat_scale_sigma0 M a ha (fun hpos => hguard 0 hpos) Z
 
 end mat
 
@@ -258,6 +278,16 @@ theorem corrND_scale (n d : ℕ) (a : ℝ) (ha : 0 < a) (Y Z : List (List ℝ))
   intro z _
   exact vecOf_vscale d a z
 
+theorem corrND_scale_sigma0 (n d : ℕ) (a : ℝ) (ha : 0 < a) (Y Z : List (List ℝ))
+    (hguard : 0 < min n d → (tinyR < sv (matOf n d Y) 0 ↔ tinyR < a * sv (matOf n d Y) 0)) :
+    corrND n d (Y.map (vscale a)) (Z.map (vscale a)) = corrND n d Y Z := by
+  unfold corrND
+  rw [matOf_scale, List.map_map, ← corrMat_scale_sigma0 (matOf n d Y) a ha hguard, List.map_map]
+  congr 1
+  apply List.map_congr_left
+  intro z _
+  exact vecOf_vscale d a z
+
 theorem dim_map_vscale (a : ℝ) (Y : List (List ℝ)) : dim (Y.map (vscale a)) = dim Y := by
   cases Y with
   | nil => rfl
@@ -299,6 +329,32 @@ theorem corrMath_scale (a : ℝ) (ha : 0 < a) (Y Z : List (List ℝ))
   unfold corrMath
   rw [List.length_map, dim_map_vscale]
   exact corrND_scale _ _ a ha Y Z hguard
+
+/-- **corrMath_scale_sigma0.** Since the rank decision on `σ_l` is relative to `σ_0` (repair of the
+units-dependence defect), the scaling law of the correction needs the guard hypothesis for the LARGEST
+singular value only (`σ_0 > 1e-12` is the code's test for "the neighbourhood is not a single point").
+For the pre-fix absolute threshold this is false: `ratioTermAbs_not_scale_invariant`. -/
+theorem corrMath_scale_sigma0 (a : ℝ) (ha : 0 < a) (Y Z : List (List ℝ))
+    (hguard : 0 < min Y.length (dim Y) → (tinyR < svOf Y 0 ↔ tinyR < a * svOf Y 0)) :
+    corrMath (Y.map (vscale a)) (Z.map (vscale a)) = corrMath Y Z := by
+  unfold corrMath
+  rw [List.length_map, dim_map_vscale]
+  exact corrND_scale_sigma0 _ _ a ha Y Z hguard
+
+/-- **ratioTermAbs_not_scale_invariant.** The pre-fix term (absolute threshold `σ_l > 1e-12`) is NOT
+invariant under a common scaling: `σ_0 = 1`, `σ_l = 1e-12` is skipped (`0`), the same configuration
+in units ten times smaller (`a = 10`) contributes `-12`. In floating point the role of `σ_l = 1e-12`
+is played by the rounding noise `ε·‖Y‖` of a rank-deficient neighbourhood (`k < d`), which crosses
+`1e-12` when the data have spread `≳ 1e3`: the failing input of DESIGN A.3. -/
+theorem ratioTermAbs_not_scale_invariant :
+    ∃ a s0 sl : ℝ, 0 < a ∧ ratioTermAbs (a * s0) (a * sl) ≠ ratioTermAbs s0 sl := by
+  refine ⟨10, 1, tinyR, by norm_num, ?_⟩
+  have h1 : ¬ tinyR < tinyR := lt_irrefl _
+  have h2 : tinyR < 10 * tinyR := by unfold tinyR; norm_num
+  have h3 : (10 * tinyR) / (10 * 1) = tinyR := by ring
+  unfold ratioTermAbs
+  rw [h3]
+  simp [h1, h2]
 
 /-- the singular values of a rotated configuration -/
 theorem svOf_rot {d : ℕ} (Q : Matrix (Fin d) (Fin d) ℝ) (hQ : Qᵀ * Q = 1)
@@ -510,6 +566,24 @@ theorem geom_scale_svd (a : ℝ) (ha : 0 < a) (logN logCd dOverN dA : ℝ) (X : 
   have h2 := knnIdx_length_le ((sqKeys X).getD i []) k
   have h3 := dim_centred_le envSvd X hw i (knnIdx ((sqKeys X).getD i []) k)
   omega
+
+/-- **geom_scale_svd_sigma0.** The scaling law with the guard hypothesis on the LARGEST singular value
+of every local configuration only (`hsv0`) -- what is left of `hsv` after the repair that made the
+rank decision relative. In particular rank-deficient neighbourhoods (`k < d`, `σ_l = 0`) and data in
+any units satisfy it as soon as `σ_0(Y_i)` and `a σ_0(Y_i)` exceed `1e-12`. -/
+theorem geom_scale_svd_sigma0 (a : ℝ) (ha : 0 < a) (logN logCd dOverN dA : ℝ) (X : List (List ℝ))
+    (k d : ℕ) (hw : ∀ r ∈ X, r.length = d) (hd : dOverN * (X.length : ℝ) = dA)
+    (hg : ∀ i < X.length, tinyR < rho envSvd X k i (knnIdx ((sqKeys X).getD i []) k))
+    (hg' : ∀ i < X.length, tinyR < a * rho envSvd X k i (knnIdx ((sqKeys X).getD i []) k))
+    (hsv0 : ∀ i < X.length,
+      (tinyR < svOf (centred envSvd X i (knnIdx ((sqKeys X).getD i []) k)) 0
+        ↔ tinyR < a * svOf (centred envSvd X i (knnIdx ((sqKeys X).getD i []) k)) 0)) :
+    entropyOf envSvd logN logCd dOverN (scale a X) k
+      = entropyOf envSvd logN logCd dOverN X k + dA * Real.log a := by
+  refine geom_scale_local envSvd a ha tinyR_pos.le (hsqrt_real a ha.le) hlog_real logN logCd dOverN
+    dA X k ?_ hd hg hg'
+  intro i hi
+  exact corrMath_scale_sigma0 a ha _ _ (fun _ => hsv0 i hi)
 
 /-- **geom_laws_real.** The four transformation laws of C12 for the real instance `envSvd` of the
 model (real `log`, `sqrt`; mathematical SVD correction `corrMath`; the code's guard constants), for
